@@ -20,11 +20,19 @@ const PRELUDE: &str = r##"
 use core::str::FromStr;
 use core::fmt::Debug;
 
+/// Case mapping used by the reference rule: ASCII letters plus a few non-ASCII letters whose upper and lower
+/// case forms correspond one to one (so "ignoring case" is unambiguous for every generated name).
+pub const PAIRS: [(char, char); 4] = [('É', 'é'), ('Ä', 'ä'), ('Ø', 'ø'), ('Ü', 'ü')];
+pub fn lower(c: char) -> char { if c.is_ascii() { c.to_ascii_lowercase() } else { PAIRS.iter().find(|p| p.0 == c).map(|p| p.1).unwrap_or(c) } }
+pub fn upper(c: char) -> char { if c.is_ascii() { c.to_ascii_uppercase() } else { PAIRS.iter().find(|p| p.1 == c).map(|p| p.0).unwrap_or(c) } }
+pub fn is_lower(c: char) -> bool { lower(c) == c && upper(c) != c }
+pub fn ci_eq(a: &str, b: &str) -> bool { a.chars().count() == b.chars().count() && a.chars().zip(b.chars()).all(|(x, y)| lower(x) == lower(y)) }
+
 /// Reference implementation of the documented rule: index of the variant `s` parses to.
 pub fn rule(names: &[&str], s: &str) -> Option<usize> {
     for (i, n) in names.iter().enumerate() {
-        let ambiguous = names.iter().enumerate().any(|(j, m)| j != i && m.eq_ignore_ascii_case(n));
-        let hit = if ambiguous { s == *n } else { s.eq_ignore_ascii_case(n) };
+        let ambiguous = names.iter().enumerate().any(|(j, m)| j != i && ci_eq(m, n));
+        let hit = if ambiguous { s == *n } else { ci_eq(s, n) };
         if hit { return Some(i); }
     }
     None
@@ -61,7 +69,7 @@ fn bounded_len(a: usize, cap: usize, max: usize) -> usize {
 
 fn both_cases(names: &[&str]) -> Vec<char> {
     let mut alpha: Vec<char> = vec![];
-    for n in names { for c in n.chars() { for x in [c.to_ascii_lowercase(), c.to_ascii_uppercase()] { if !alpha.contains(&x) { alpha.push(x); } } } }
+    for n in names { for c in n.chars() { for x in [lower(c), upper(c)] { if !alpha.contains(&x) { alpha.push(x); } } } }
     for c in ['_', '-', ' ', '#'] { if !alpha.contains(&c) { alpha.push(c); } }
     alpha
 }
@@ -92,7 +100,7 @@ pub fn enum_strings(names: &[&str], seed: u64) -> (Vec<String>, usize) {
         let chars: Vec<char> = n.chars().collect();
         let k = chars.len().min(8);
         for mask in 0u32..(1u32 << k) {
-            let s: String = chars.iter().enumerate().map(|(i, c)| if i < k && (mask >> i) & 1 == 1 { if c.is_ascii_lowercase() { c.to_ascii_uppercase() } else { c.to_ascii_lowercase() } } else { *c }).collect();
+            let s: String = chars.iter().enumerate().map(|(i, c)| if i < k && (mask >> i) & 1 == 1 { if is_lower(*c) { upper(*c) } else { lower(*c) } } else { *c }).collect();
             if mask < 16 { out.push(format!("r#{s}")); out.push(format!("R#{s}")); }
             out.push(s);
         }
@@ -129,7 +137,7 @@ pub fn enum_strings(names: &[&str], seed: u64) -> (Vec<String>, usize) {
     for _ in 0..200 {
         // a name with random case and sometimes one foreign character
         let n = names[g.below(names.len())];
-        let mut v: Vec<char> = n.chars().map(|c| if g.below(2) == 0 { c.to_ascii_uppercase() } else { c.to_ascii_lowercase() }).collect();
+        let mut v: Vec<char> = n.chars().map(|c| if g.below(2) == 0 { upper(c) } else { lower(c) }).collect();
         if g.below(3) == 0 { let at = g.below(v.len() + 1); v.insert(at, pool[g.below(pool.len())]); }
         out.push(v.iter().collect());
     }
@@ -247,16 +255,26 @@ where
 }
 "##;
 
+/// Case mapping used by the reference rule: ASCII letters plus a few non-ASCII letters whose upper and lower
+/// case forms correspond one to one (so "ignoring case" is unambiguous for every generated name).
+const PAIRS: [(char, char); 4] = [('É', 'é'), ('Ä', 'ä'), ('Ø', 'ø'), ('Ü', 'ü')];
+fn lower(c: char) -> char { if c.is_ascii() { c.to_ascii_lowercase() } else { PAIRS.iter().find(|p| p.0 == c).map(|p| p.1).unwrap_or(c) } }
+fn upper(c: char) -> char { if c.is_ascii() { c.to_ascii_uppercase() } else { PAIRS.iter().find(|p| p.1 == c).map(|p| p.0).unwrap_or(c) } }
+fn is_lower(c: char) -> bool { lower(c) == c && upper(c) != c }
+fn ci_eq(a: &str, b: &str) -> bool { a.chars().count() == b.chars().count() && a.chars().zip(b.chars()).all(|(x, y)| lower(x) == lower(y)) }
+fn lower_s(s: &str) -> String { s.chars().map(lower).collect() }
+fn upper_s(s: &str) -> String { s.chars().map(upper).collect() }
+
 /// base words for variant names; keywords may only be written as raw identifiers
-const BASES: [&str; 14] = ["A", "Ab", "Foo", "Bar", "Baz", "Ok", "Err", "None", "Http2", "Foo_Bar", "X1", "Request", "Io", "Z"];
+const BASES: [&str; 17] = ["A", "Ab", "Foo", "Bar", "Baz", "Ok", "Err", "None", "Http2", "Foo_Bar", "X1", "Request", "Io", "Z", "Élan", "Ärger", "Øü"];
 const KEYWORDS: [&str; 8] = ["fn", "type", "match", "loop", "Type", "Fn", "move", "dyn"];
 
 fn case_pattern(d: &mut Dice, w: &str) -> String {
     match d.weighted(&[5, 2, 2, 2]) {
         0 => w.to_string(),
-        1 => w.to_ascii_uppercase(),
-        2 => w.to_ascii_lowercase(),
-        _ => w.chars().enumerate().map(|(i, c)| if i % 2 == 1 { c.to_ascii_uppercase() } else { c.to_ascii_lowercase() }).collect(),
+        1 => upper_s(w),
+        2 => lower_s(w),
+        _ => w.chars().enumerate().map(|(i, c)| if i % 2 == 1 { upper(c) } else { lower(c) }).collect(),
     }
 }
 
@@ -280,17 +298,17 @@ fn build_enum(d: &mut Dice) -> GenCase {
                 // another spelling of an earlier name
                 let (prev, _) = vars[d.pick(vars.len())].clone();
                 let n = match d.pick(4) {
-                    0 => prev.to_ascii_uppercase(),
-                    1 => prev.to_ascii_lowercase(),
+                    0 => upper_s(&prev),
+                    1 => lower_s(&prev),
                     2 => {
                         let mut c: Vec<char> = prev.chars().collect();
                         let k = d.pick(c.len());
-                        c[k] = if c[k].is_ascii_uppercase() { c[k].to_ascii_lowercase() } else { c[k].to_ascii_uppercase() };
+                        c[k] = if is_lower(c[k]) { upper(c[k]) } else { lower(c[k]) };
                         c.into_iter().collect()
                     }
                     _ => {
                         let mut c = prev.chars();
-                        c.next().map(|f| f.to_ascii_uppercase().to_string() + &c.as_str().to_ascii_lowercase()).unwrap_or_default()
+                        c.next().map(|f| upper(f).to_string() + &lower_s(c.as_str())).unwrap_or_default()
                     }
                 };
                 (n, d.chance(10))
@@ -315,8 +333,8 @@ fn build_enum(d: &mut Dice) -> GenCase {
         }
     }
     let has_raw = vars.iter().any(|(n, i)| n != i);
-    let has_collision = vars.iter().enumerate().any(|(i, (n, _))| vars.iter().enumerate().any(|(j, (m, _))| i != j && n.eq_ignore_ascii_case(m)));
-    let raw_collision = vars.iter().enumerate().any(|(i, (n, id))| n != id && vars.iter().enumerate().any(|(j, (m, _))| i != j && n.eq_ignore_ascii_case(m)));
+    let has_collision = vars.iter().enumerate().any(|(i, (n, _))| vars.iter().enumerate().any(|(j, (m, _))| i != j && ci_eq(n, m)));
+    let raw_collision = vars.iter().enumerate().any(|(i, (n, id))| n != id && vars.iter().enumerate().any(|(j, (m, _))| i != j && ci_eq(n, m)));
     // shapes: `V()` / `V {}` are field-less too
     let mut shapes: Vec<&str> = vec![""; vars.len()];
     let mut has_empty_shape = false;
@@ -339,6 +357,9 @@ fn build_enum(d: &mut Dice) -> GenCase {
         "#[derive(derive_more::FromStr, Debug, Clone, Copy, PartialEq)]\npub enum {eident} {{\n{decl}}}\nconst NAMES: &[&str] = &[{names}];\nconst IDENTS: &[&str] = &[{idents}];\nfn idx(v: &{eident}) -> usize {{ match v {{ {arms}}} }}\npub fn run(o: &mut Out) {{\n    enum_check::<{eident}>(o, {ename:?}, NAMES, IDENTS, idx, {seed});\n}}\n"
     );
     labels.push(format!("variants={nv}"));
+    if vars.iter().any(|(n, _)| !n.is_ascii()) {
+        labels.push("non_ascii_variant_name".into());
+    }
     if has_collision {
         labels.push("has_case_collision_group".into());
     }
@@ -496,7 +517,7 @@ fn classify(c: &GenCase, r: &CaseResult, f: &Finding) -> Option<String> {
     None
 }
 
-const RULE: &str = "field-less enums (1..6 variants; ASCII names from 22 words in 4 case patterns, groups differing only in case, raw identifiers incl. keywords, names with digits/underscores, raw enum name, `V()`/`V {}` variants) and newtypes (tuple/named/raw field, 5 generic forms) over i32,u8,i64,u128,f64,f32,bool,char,String,IpAddr,SocketAddr,NonZeroU8,PathBuf and a custom type with a custom error echoing its input. Enum strings, generated inside the program: exhaustively all strings up to length L<=4 over the letters of each name in both cases plus `_ - space #` (L = largest with <=6000 strings; same over the letters of all names), all 2^min(len,8) case patterns of every name (also behind r#/R#), all one-edit neighbours over that alphabet and 8 multi-byte characters, prefixes, suffixes, concatenations, padded names, 500 seeded random strings <=24 chars; oracle: reference implementation of the documented rule over the unraw names, Err must be derive_more::FromStrError (type-checked) whose Display mentions the enum's name; every own name must parse back. Newtype strings: 64 base strings + per-type extras, each padded 8 ways, 800 seeded random strings; oracle: s.parse::<Inner>().map(N) equal incl. the error value (type identity checked by the compiler). Non-trivial = enum with a case-collision group or a raw identifier (strings within one edit of every name are always included), newtype whose inner type can fail; distinct by program text";
+const RULE: &str = "field-less enums (1..6 variants; names from 25 words (3 with non-ASCII letters É Ä Ø Ü) in 4 case patterns, groups differing only in case, raw identifiers incl. keywords, names with digits/underscores, raw enum name, `V()`/`V {}` variants) and newtypes (tuple/named/raw field, 5 generic forms) over i32,u8,i64,u128,f64,f32,bool,char,String,IpAddr,SocketAddr,NonZeroU8,PathBuf and a custom type with a custom error echoing its input. Enum strings, generated inside the program: exhaustively all strings up to length L<=4 over the letters of each name in both cases plus `_ - space #` (L = largest with <=6000 strings; same over the letters of all names), all 2^min(len,8) case patterns of every name (also behind r#/R#), all one-edit neighbours over that alphabet and 8 multi-byte characters, prefixes, suffixes, concatenations, padded names, 500 seeded random strings <=24 chars; oracle: reference implementation of the documented rule over the unraw names, Err must be derive_more::FromStrError (type-checked) whose Display mentions the enum's name; every own name must parse back. Newtype strings: 64 base strings + per-type extras, each padded 8 ways, 800 seeded random strings; oracle: s.parse::<Inner>().map(N) equal incl. the error value (type identity checked by the compiler). Non-trivial = enum with a case-collision group or a raw identifier (strings within one edit of every name are always included), newtype whose inner type can fail; distinct by program text";
 
 pub fn prop() -> DiceProp {
     DiceProp {
@@ -513,7 +534,7 @@ pub fn prop() -> DiceProp {
         classify,
         rule: RULE.into(),
         assumptions: vec![
-            "variant names are ASCII; strings contain no character whose lower-case form has an ASCII letter other than ASCII letters themselves (Kelvin sign, dotted capital I are excluded), so `ignoring case` is unambiguous".into(),
+            "variant names are ASCII or use the letters É Ä Ø Ü whose case forms correspond one to one; strings contain no character whose lower-case form has an ASCII letter other than ASCII letters themselves (Kelvin sign, dotted capital I are excluded), so `ignoring case` is unambiguous".into(),
             "std's FromStr impls of the installed toolchain are the reference for newtypes".into(),
         ],
         floors: vec![
